@@ -52,7 +52,7 @@ TIERS = {
     # simulation recordings are always validated; a recording with a comparison mismatch too)
     "quick": dict(graphs=["w3full", "w2s1all", "w1s2few"], quiet=[], sims=60, probe_mod=12, state_probes=6000,
                   nd_probe_mod=5, chunk=300, parts=8, random_runs=12, random_seqs=30, random_ops=250,
-                  random_probe_pct=35, tv_mod=4),
+                  random_probe_pct=35, tv_mod=6),
     "thorough": dict(graphs=["w3full", "w2s1all", "w1s2few", "w2s2few", "w3s2d3"], quiet=["cfg/QsbrPtr/w3s2d5quiet.cfg"],
                      sims=1500, probe_mod=1, state_probes=0, nd_probe_mod=6, chunk=300, parts=16, random_runs=64,
                      random_seqs=60, random_ops=400, random_probe_pct=100, tv_mod=1),
@@ -393,7 +393,7 @@ def sim_job(args):
         raise vlib.CheckBroken("no behaviours out of TLC simulation:\n%s" % r.out[-1500:])
     tc = dict(tcfg)
     tc["probe_mod"] = 1 if tier == "thorough" else 4
-    parts = write_parts("sim", d, (NW, NS, NB, N), behs, _tup(init), init_qa, max(1, tcfg["parts"] // 2), tc, seed)
+    parts = write_parts("sim", d, (NW, NS, NB, N), behs, _tup(init), init_qa, max(1, tcfg["parts"] // 4), tc, seed)
     log("[C17] sim: %d behaviours of %d steps (%d states generated) in %.0fs" % (len(behs), simlen, gen, r.wall))
     return dict(name="sim", cfg=cfg, behaviours=len(behs), steps=sum(len(b) for b in behs), generated=gen, parts=parts,
                 sample={"graph": "sim", "behaviour_prefix": [list(s[:5]) + [{"res": s[5], "w": s[6], "s": s[7], "accepted": s[8]}]
@@ -679,7 +679,9 @@ def run(prop, tier, seed):
             argv = ["--random", "--seed", str(s), "--seqs", str(tcfg["random_seqs"]), "--ops", str(tcfg["random_ops"]),
                     "--probe-pct", str(tcfg["random_probe_pct"] if b == "dbg" else max(3, tcfg["random_probe_pct"] // 6)),
                     "--out", out, "--nw", str(NW), "--ns", str(NS), "--nb", str(NB), "--n", str(N)]
-            jobs.append(("random", "random", b, argv, out, None))
+            if k % 3 == 1:
+                argv.append("--foreign")      # a second QSBR thread holds a wrapper of its own
+            jobs.append(("random", "random+foreign" if k % 3 == 1 else "random", b, argv, out, None))
 
         def drv(job):
             rc, err = run_driver(exe[job[2]], job[3])
@@ -756,6 +758,10 @@ def run(prop, tier, seed):
             if c is not None:
                 replays_ok += 1
             continue
+        rej = v["event"] or {}
+        if rej.get("e") == "Probe" and rej.get("sig") not in (0, 6):
+            raise vlib.CheckBroken("probe child died of signal %s (not an assertion): %s line %s"
+                                   % (rej.get("sig"), out, v["line"]))
         if v["violation"] not in (None, "postcondition"):
             what = "PtrTrace: %s of QsbrPtr violated on the recorded execution" % v["violation"]
         else:
@@ -809,13 +815,14 @@ def run(prop, tier, seed):
         "recordings": len(jobs),
         "recordings_rejected": nviol,
         "random_recordings": sum(1 for j in jobs if j[0] == "random"),
+        "random_recordings_with_foreign_thread": sum(1 for j in jobs if j[1] == "random+foreign"),
         "trace_events_per_action_validated_by_TLC": tv_cov,
         "builds": ["dbg (assertions)", "ndebug"],
         "phase_wall_s": {"tlc_cover_build": round(tA - t0, 1), "drivers": round(tB - tA, 1), "compare_validate": round(tC - tB, 1)},
     }
     vlib.write_evidence(prop, tier, seed, "model_checking", coverage,
                         vlib.ASSUME_COMMON + [
-                            "single thread; wrapper slots/buffers bounded as listed under model_instances; random recordings use up to 6 wrappers, 4 spans, 4 buffers of 15 elements",
+                            "one thread is modelled (random recordings marked +foreign run a second QSBR thread holding a wrapper of its own, which must not influence the verdicts); wrapper slots/buffers bounded as listed under model_instances; random recordings use up to 6 wrappers, 4 spans, 4 buffers of 15 elements",
                             "only calls that are defined on raw pointers are made (arithmetic within [begin, one-past-end], relational comparison/difference within one array, assignment between distinct objects); the length of a moved-from span is not compared",
                             "qsbr_resume() can only be probed after an accepted qsbr_pause(): a non-null wrapper cannot legally exist on a paused thread",
                             "liveness verdict observed as SIGABRT of a forked child; %s" %
